@@ -117,6 +117,10 @@ class C19(scen.WorldProp):
         # position of the *held-up* rhythm
         for i in range(16 if tier == "quick" else 200):
             yield self.speed_after_hold_up(rng)
+        # (vi) a peal-speed setting while Wheatley is waiting for a human to pull off: nothing may be rung before
+        # the leader goes, and the first row is then placed from the leader's strike at the new speed
+        for i in range(10 if tier == "quick" else 120):
+            yield self.speed_before_pull_off(rng)
         # (v) the real server-mode start-up, with the answers to the join arriving at once or a millisecond later
         for i in range(8 if tier == "quick" else 60):
             yield self.startup_case(rng)
@@ -255,8 +259,32 @@ class C19(scen.WorldProp):
         return {"k": "world", "scenario": sc,
                 "plan": {"first": N, "t0": t0, "N": N, "speed": sp, "t_sp": t_sp, "held": human, "D": D}}
 
+    def speed_before_pull_off(self, rng):
+        N = rng.choice([4, 6, 8])
+        t0 = 1000.5 + rng.random()
+        lead_lag = rng.choice([3.0, 4.5, 8.0, 15.0]) + rng.random()
+        sp = rng.choice([120, 150, 180, 240])
+        n_set = rng.choice([1, 1, 2])
+        t_sets = sorted(t0 + rng.uniform(0.1, lead_lag - 0.1) for _ in range(n_set))
+        others = sorted(rng.sample(range(2, N + 1), rng.choice([0, 0, 1])))
+        humans = [1] + others
+        events = [[t0 - 0.3, "msg", method_msg(N)], call(t0, LOOK_TO)]
+        for k, t in enumerate(t_sets):
+            events.append([t, "msg", {"m": "setting", "kvs": [["peal_speed", sp if k == len(t_sets) - 1 else 200]]}])
+        I1 = scen.interval(sp, N)
+        sc = {"start": 1000.0, "end": t0 + lead_lag + 3 * I1 * (N + 1), "tower_size": N, "events": events,
+              "on_join": scen.humans_on_join(humans, "Wheatley", [b for b in range(1, 17) if b not in humans]),
+              "bot": scen.bot_cfg({"type": "placeholder"}, up_down_in=True, stop_at_rounds=False, user_name="Wheatley",
+                                  server_id=rng.randint(1, 9)),
+              "rhythm": scen.rhythm_cfg("wait", inertia=1.0, peal_speed=180, initial_inertia=1.0)}
+        return {"k": "world", "scenario": sc,
+                "plan": {"first": N, "t0": t0, "N": N, "pull_off": {"lag": lead_lag, "speed": sp, "humans": humans}}}
+
     def agents(self, req):
         plan = req.get("plan") or {}
+        if "pull_off" in plan:
+            po = plan["pull_off"]
+            return lambda s: [scen.Follower(s, po["humans"], lambda r, p: po["lag"] if (r, p) == (0, 0) else 0.0)]
         if "held" in plan:
             # the human is D late once, in row 2, and punctual (slightly early) otherwise
             return lambda s: [scen.Follower(s, [plan["held"]], lambda r, p: plan["D"] if r == 2 else 0.0)]
@@ -388,6 +416,25 @@ class C19(scen.WorldProp):
         def touch_rows(t_from, t_to):
             bells = [b for (t, b, h) in rings if t_from <= t < t_to]
             return [bells[i:i + N] for i in range(0, len(bells) - len(bells) % N, N)]
+        if "pull_off" in plan:
+            po = plan["pull_off"]
+            strikes = [(scen.b2f(t), b, by) for t, b, by in reply["strikes"]]
+            lead = next((t for (t, b, by) in strikes if b == 1 and by == "human"), None)
+            own = [(t, b) for (t, b, by) in strikes if by == "wheatley"]
+            if lead is None:
+                return "the human leader never struck" if not own else \
+                    f"Wheatley struck bell {own[0][1]} although the human leader never pulled off"
+            if own and own[0][0] < lead:
+                return (f"peal-speed setting while waiting for the pull-off: Wheatley struck bell {own[0][1]} "
+                        f"{lead - own[0][0]:.3f} s before the leader pulled off")
+            I1 = scen.interval(po["speed"], N)
+            first_row = strikes[:N]
+            for p, (t, b, by) in enumerate(first_row):
+                if by == "wheatley" and all(x[2] == "wheatley" or x[1] == 1 for x in first_row[:p]):
+                    if abs(t - (lead + p * I1)) > 0.0201:
+                        return (f"after the pull-off at the new speed {po['speed']}: place {p} struck {t - lead:.4f} s "
+                                f"after the leader, the new interval gives {p * I1:.4f} s")
+            return None
         if "held" in plan:
             # every accepted strike in server order: index k is blow k // N * N + k % N (+ one gap per whole pull)
             strikes = [(scen.b2f(t), b, by) for t, b, by in reply["strikes"]]
